@@ -1,4 +1,5 @@
 import Stackage.Spec.EqSpec
+import Stackage.Lemmas.GenSem
 
 /-!
 # Lemmas about the equality model (C05)
@@ -13,8 +14,7 @@ open EV EqSpec
 /-! ## The generated capacity / length rule -/
 
 theorem capLenEqual_iff (c1 c2 l1 l2 : Int) : Gen.capLenEqual c1 c2 l1 l2 = true ↔ (c1 = c2 ∧ l1 = l2) := by
-  unfold Gen.capLenEqual
-  by_cases h1 : c1 = 0 <;> by_cases h2 : c2 = 0 <;> simp [h1, h2] <;> omega
+  rw [GenSem.capLenEqual, decide_eq_true_eq]
 
 theorem capLenEqual_nat (c c' n n' : Nat) :
     Gen.capLenEqual (c : Int) (c' : Int) (n : Int) (n' : Int) = true ↔ (c = c' ∧ n = n') := by
